@@ -104,7 +104,7 @@ pub fn weights(p: Prop) -> [u8; NOPS] {
         Prop::C02 => [10, 5, 5, 1, 1, 1, 0, 0, 1, 6, 4, 3, 1, 6, 1, 8, 4, 4, 4, 1, 0, 0, 0, 0, 0, 3],
         Prop::C03 => [14, 4, 4, 0, 0, 0, 0, 0, 0, 5, 2, 2, 0, 1, 0, 0, 2, 0, 0, 0, 0, 12, 0, 0, 2, 3],
         Prop::C04 => [10, 4, 4, 1, 1, 1, 1, 1, 1, 5, 3, 5, 3, 4, 1, 4, 6, 6, 3, 2, 0, 0, 0, 2, 0, 4],
-        Prop::C05 => [10, 5, 5, 1, 2, 0, 0, 2, 2, 6, 4, 4, 1, 2, 3, 1, 8, 2, 3, 3, 0, 0, 0, 0, 1, 5],
+        Prop::C05 => [10, 5, 5, 1, 2, 0, 0, 2, 2, 6, 4, 4, 1, 2, 3, 3, 8, 2, 3, 3, 0, 0, 0, 0, 1, 5],
         Prop::C06 => [10, 4, 4, 3, 3, 3, 2, 1, 1, 5, 3, 3, 1, 3, 6, 3, 6, 3, 0, 3, 0, 0, 4, 3, 1, 3],
         Prop::C09 => [12, 3, 3, 2, 1, 1, 1, 1, 0, 9, 4, 3, 0, 1, 16, 0, 2, 1, 0, 0, 0, 0, 0, 0, 0, 0],
         Prop::C10 => [14, 3, 3, 1, 0, 0, 0, 0, 0, 7, 3, 2, 0, 9, 1, 9, 1, 2, 0, 0, 0, 0, 0, 0, 0, 0],
